@@ -478,7 +478,11 @@ func TestVerifC15(t *testing.T) {
 			ups = append(ups, mk(hpipe.UpOutcome{HasOpt: true, Options: opts}))
 			ups = append(ups, mk(hpipe.UpOutcome{HasOpt: true, Options: opts, Rcode: 16}))
 		}
+		// the upstream's OPT is not the last additional record
+		ups = append(ups, mk(hpipe.UpOutcome{HasOpt: true, Options: []string{"cookie", "padding"}, OptFirst: true}))
 	}
+	// failing upstream: the client gets SERVFAIL, its OPT rules still apply
+	ups = append(ups, hpipe.UpOutcome{Kind: "error"})
 	arrivals := []string{"udp", "tcp"}
 
 	var unit, distinct int64
